@@ -17,6 +17,7 @@
 #include <sstream>
 #include <string>
 #include <sys/wait.h>
+#include <sys/resource.h>
 #include <unistd.h>
 #include <vector>
 
@@ -336,6 +337,9 @@ int main(int argc, char **argv) {
     fflush(stdout);
     pid_t pid = fork();
     if (pid == 0) {
+      // a history takes milliseconds: ten seconds of CPU time mean it does not terminate (SIGXCPU, reported as a hang)
+      struct rlimit rl; rl.rlim_cur = 10; rl.rlim_max = 12;
+      setrlimit(RLIMIT_CPU, &rl);
       runHistory(ops);
       fflush(stdout);
       _exit(0);
